@@ -15,19 +15,20 @@ open SecsModel SecsModel.Model.Rx SecsModel.Model.Wedge SecsModel.Proofs.HsmsWed
 
 /-! ## the framing loop and the close sequence -/
 
-/-- **Never wedged.**  For every history — any byte stream, cut into any segments (`chunk c` for arbitrary `c`: every cut offset, inside the
+/-- **Never wedged** (partial: histories in which a connection is established only after the previous close sequence has finished —
+`Reachable`; the passive TCP transport can violate that, see `overlapping_connect_kills_new_connection`).  For every such history — any byte stream, cut into any segments (`chunk c` for arbitrary `c`: every cut offset, inside the
 length field, header or body), any number of connections, the close sequence started at any moment, any interleaving of the three threads,
 any block contents (`disp reply` for both values: in every session state a request may or may not be answered), any result of every
 `send_data` (`prx ok` for both values): the receiver thread is never inside a blocking read, and whenever the close sequence has begun and
 not finished some thread of the endpoint can take a step. -/
-theorem never_wedged (s : St) (h : Reachable s) : s.prx ≠ .blockedRead ∧ wedged .current s = false :=
+theorem never_wedged_partial (s : St) (h : Reachable s) : s.prx ≠ .blockedRead ∧ wedged .current s = false :=
   ⟨(inv_reachable s h).noBlocked, not_wedged_of_inv s (inv_reachable s h)⟩
 
-/-- **Close completes within a step bound under weak fairness.**  From any reachable state in which the close sequence has begun, *every*
+/-- **Close completes within a step bound under weak fairness** (partial: as above).  From any reachable state in which the close sequence has begun, *every*
 maximal run of the endpoint's own threads (a run that ends where no thread can take a step — which is where a weakly fair scheduler ends
 up) has at most `mu s` steps and ends with the close sequence finished: connection thread done, NOT CONNECTED, empty receive buffer,
 receiver thread exited. -/
-theorem close_completes (s s' : St) (ls : List Lbl) (h : Reachable s) (hc : s.tcp.closing = true)
+theorem close_completes_partial (s s' : St) (ls : List Lbl) (h : Reachable s) (hc : s.tcp.closing = true)
     (hl : ∀ l ∈ ls, l.internal = true) (hr : run .current s ls = some s') (hq : quiescent .current s' = true) :
     ls.length ≤ mu s ∧ s'.tcp = .done ∧ s'.conn = false ∧ s'.buf = [] ∧ s'.prx = .exited := by
   have hb := run_bound ls s s' hl hr
@@ -61,7 +62,7 @@ theorem close_reachable (s : St) :
 def cut7 : Bytes := [0, 0, 0, 10, 0xFF, 0xFF, 0]
 def linktest : Bytes := [0, 0, 0, 10, 0xFF, 0xFF, 0, 0, 0, 5, 0, 0, 0, 7]
 
-/-- non-vacuity of `never_wedged`/`close_completes`: connect, 7 of 14 bytes of a Linktest.req, the receiver thread runs the loop and goes
+/-- non-vacuity of `never_wedged_partial`/`close_completes_partial`: connect, 7 of 14 bytes of a Linktest.req, the receiver thread runs the loop and goes
 back to waiting, the peer closes — a reachable state inside the close sequence; running the threads to quiescence finishes it in 14 steps -/
 def cutThenClose : List Lbl := [.connect, .chunk cut7, .prx true, .prx true, .prx true, .prx true, .prx true, .close]
 def closeSteps : List Lbl :=
@@ -161,6 +162,20 @@ theorem send_failure_strands_separate :
           .disp true, .disp true]) = some s
       ∧ s.tcp = .done ∧ s.conn = false ∧ s.buf = [] ∧ s.prx = .exited ∧ s.sendQ = [] ∧ quiescent .current s = true) := by
   refine ⟨⟨_, rfl, ?_⟩, ⟨_, rfl, ?_⟩⟩ <;> decide +kernel
+
+/-- **witness (OPEN finding `c09-relisten-overlaps-teardown`): a connection accepted while the previous one is still being torn down is
+killed by that teardown.**  The peer closes; the old connection's thread has sent its Separate.req and stands before
+`HsmsProtocol._on_disconnected`; the restarted listener accepts a new peer and `_on_connected` runs (`connectEarly`); then the old thread
+goes on: `connection_state.disconnect()`, `ProtocolDispatcher.stop()` — which finds a live receiver thread (the NEW one), stops and joins
+it — `_receive_buffer.clear()`.  The endpoint's threads come to rest NOT CONNECTED with the receiver thread stopped, although nobody closed
+the new connection (nothing was received or sent on it: `fed = []`, `out = []`). -/
+theorem overlapping_connect_kills_new_connection :
+    ∃ s0 s1 s2, run .current St.init [.connect, .close, .tcp, .prx true, .prx true, .prx true, .prx true, .prx true, .tcp] = some s0
+      ∧ s0.tcp = .discon
+      ∧ connectEarly s0 = some s1 ∧ s1.conn = true ∧ s1.prx = .idle
+      ∧ run .current s1 [.tcp, .prx true, .prx true, .tcp, .tcp] = some s2
+      ∧ quiescent .current s2 = true ∧ s2.conn = false ∧ s2.prx = .exited ∧ s2.fed = [] ∧ s2.out = [] := by
+  refine ⟨_, _, _, rfl, ?_, rfl, ?_, ?_, rfl, ?_⟩ <;> decide +kernel
 
 /-- **witness (OPEN finding `c09-stale-reply-next-connection`): a reply queued after the receiver thread has been stopped is carried into the
 next connection.**  The dispatcher thread is
